@@ -511,3 +511,114 @@ def always_followed_by(body, from_block, via_blocks):
 def is_atomic_load(term, field):
     return (term[0] == "call" and term[1].startswith("std::sync::atomic::") and term[1].endswith("::load")
             and term[2] and (mir.field_path(term[2][0]) or "").split(".")[-1] == field)
+
+
+# ============================================================ K5 lock-held
+LOCK_METHODS = ("::lock", "::try_lock", "::write", "::read", "::try_write", "::try_read", "::lock_owned", "::blocking_lock")
+
+
+def lock_calls(body, field=None):
+    """[(bi, term, field_name, method)] for lock acquisitions on a field path"""
+    out = []
+    for bi, t, path in body.calls():
+        if not path or not t["a"]:
+            continue
+        m = None
+        for lm in LOCK_METHODS:
+            if path.endswith(lm):
+                m = lm[2:]
+        if m is None or not ("Mutex" in path or "RwLock" in path):
+            continue
+        fp = mir.field_path(body.term_operand(t["a"][0]))
+        if fp is None:
+            continue
+        f = fp.split(".")[-1]
+        if field is None or f == field:
+            out.append((bi, t, f, m))
+    return out
+
+
+def guard_live_at(body, lock_bi, site_bi):
+    """True iff on every path from the lock call to the site the guard returned by the lock call is
+    still held by some local (not dropped, not passed away).  Tracks moves between locals."""
+    t = body.blocks[lock_bi]["t"]
+    if t.get("to") is None or "p" in t["dst"]:
+        return False
+    start = (t["to"], frozenset([t["dst"]["l"]]))
+    seen = {start}
+    stack = [start]
+    reached = False
+    while stack:
+        bi, holders = stack.pop()
+        if bi == lock_bi:
+            continue  # re-acquired on a later iteration: analysed from there
+        blk = body.blocks[bi]
+        h = set(holders)
+        for s in blk["s"]:
+            if s["k"] == "as":
+                rv = s["rv"]
+                src = None
+                if rv["r"] == "use" and rv["o"]["k"] == "mv":
+                    src = rv["o"]["p"]["l"]
+                elif rv["r"] == "agg":
+                    for o in rv["ops"]:
+                        if o["k"] == "mv" and o["p"]["l"] in h:
+                            src = o["p"]["l"]
+                if src is not None and src in h:
+                    h.discard(src)
+                    if "p" not in s["p"]:
+                        h.add(s["p"]["l"])
+                    else:
+                        h.add(s["p"]["l"])
+                elif "p" not in s["p"] and s["p"]["l"] in h:
+                    # overwritten
+                    h.discard(s["p"]["l"])
+        term = blk["t"]
+        if bi == site_bi:
+            reached = True
+            if not h:
+                return False
+            # do not continue past the site for this query
+        k = term["k"]
+        if k == "drop":
+            if term["p"]["l"] in h and "p" not in term["p"]:
+                h.discard(term["p"]["l"])
+        elif k == "call":
+            path = callee_path_of(term)
+            for a in term["a"]:
+                if a["k"] == "mv" and a["p"]["l"] in h:
+                    h.discard(a["p"]["l"])
+                    if path and (path.endswith("Option::<T>::unwrap") or path.endswith("Option::<T>::expect")
+                                 or path.endswith("Result::<T, E>::unwrap")) and "p" not in term["dst"]:
+                        h.add(term["dst"]["l"])
+        if bi == site_bi:
+            continue
+        for tgt, _ in body.succ_edges(bi):
+            st = (tgt, frozenset(h))
+            if st not in seen:
+                seen.add(st)
+                stack.append(st)
+    return reached
+
+
+def callee_path_of(term):
+    return mir.callee_path(term["f"])
+
+
+def held_locks_at(body, site_bi):
+    """names of lock fields whose guard is provably held at the site on every path:
+    the acquisition dominates the site (for try_*: via its Some/Ok edge) and the guard is live."""
+    held = []
+    for bi, t, f, m in lock_calls(body):
+        if not must_pass(body, site_bi, [bi]):
+            continue
+        if m.startswith("try_"):
+            def some_edge(term, meaning, b, sbi, tgt, bi=bi):
+                return sbi != -1 and term[0] == "discr" and meaning in ("Some", "Ok") and \
+                    term[1] == body.term_call(body.blocks[bi]["t"])
+            g = guard_edges(body, some_edge)
+            if not g or k1(body, [site_bi], g)[site_bi] is not None:
+                continue
+        if guard_live_at(body, bi, site_bi):
+            held.append((f, bi))
+    return held
